@@ -222,8 +222,30 @@ theorem statusTbl_stateErr (s : State) (ls : Bool) (c : Nat) (a b : Bool) (h : s
 theorem addError_table (env : Atom → Bool) : firstRow Gen.Sem.addError env = some [.setStatus .clusterError, .retVoid] := by
   simp [firstRow, holdsLits, Gen.Sem.addError]
 
+theorem raLoopT_eq (cfg : Cfg) (L : Nat → Option Status) (items : List (List Ev × Nat)) :
+    ∀ s, raLoopT Gen.Sem.recoverAllBody cfg L s items = some (raLoop cfg L s items) := by
+  induction items with
+  | nil => intro s; rfl
+  | cons it rest ih =>
+    intro s
+    obtain ⟨pre, c⟩ := it
+    unfold raLoopT raLoop
+    cases hL : L c with
+    | none => simp only []; exact ih _
+    | some st =>
+      simp only []
+      rcases h : recoverWith cfg (run cfg s pre) c st with ⟨a, b⟩
+      cases b with
+      | nil => simp [bodyT, h, firstRow, holdsLits, envErr, Gen.Sem.recoverAllBody]; exact ih a
+      | full => simp [bodyT, h, firstRow, holdsLits, envErr, Gen.Sem.recoverAllBody]
+
+/-- the listing failed: the error is returned and the loop is not entered; it worked: the loop, then `resp, nil` -/
+theorem recoverAll_outer :
+    firstRow Gen.Sem.recoverAll (envErr false) = some [.listAll, .retErr] ∧
+    firstRow Gen.Sem.recoverAll (envErr true) = some [.listAll, .forEach, .retNil] := by decide
+
 theorem tables_known_c :
     (known Gen.Sem.enqueue && known Gen.Sem.track && known Gen.Sem.untrack && known Gen.Sem.recover &&
-     known Gen.Sem.status && known Gen.Sem.addError) = true := by decide
+     known Gen.Sem.status && known Gen.Sem.addError && known Gen.Sem.recoverAll && known Gen.Sem.recoverAllBody) = true := by decide
 
 end CV.C05.T
